@@ -558,9 +558,11 @@ def _sift_with_noise(X, noise_scaling=None, noise=None, noise_mode='single',
         return imf
     elif noise_mode == 'flip':
         ensX = X.copy() - noise
-        imf += sift(ensX, sift_thresh=sift_thresh, max_imfs=max_imfs,
-                    imf_opts=imf_opts, envelope_opts=envelope_opts, extrema_opts=extrema_opts)
-        return imf / 2
+        imf_flip = sift(ensX, sift_thresh=sift_thresh, max_imfs=max_imfs,
+                        imf_opts=imf_opts, envelope_opts=envelope_opts, extrema_opts=extrema_opts)
+        # The two decompositions may contain different numbers of IMFs
+        nimfs = min(imf.shape[1], imf_flip.shape[1])
+        return (imf[:, :nimfs] + imf_flip[:, :nimfs]) / 2
 
 
 # Implementation
@@ -650,8 +652,11 @@ def ensemble_sift(X, nensembles=4, ensemble_noise=.2, noise_mode='single',
 
     p.close()
 
-    if max_imfs is None:
-        max_imfs = res[0].shape[1]
+    # Ensemble members may contain different numbers of IMFs, average the
+    # IMFs which are present in every member
+    nimfs = min([r.shape[1] for r in res])
+    if max_imfs is None or max_imfs > nimfs:
+        max_imfs = nimfs
 
     imfs = np.zeros((X.shape[0], max_imfs))
     for ii in range(max_imfs):
